@@ -231,8 +231,27 @@ type rangeState struct {
 }
 
 func (c *FnVC) rangeInstr(x *ssa.Range) {
-	// the iterator itself carries no state in the model
 	c.vals[x] = "range_" + sanitize(x.Name())
+	if b, ok := x.X.Type().Underlying().(*types.Basic); ok && b.Info()&types.IsString != 0 {
+		// range over a string: the byte position of the iterator is ghost state, kept in the
+		// bv64 heap at a location no Go object can have (a field path below nil's base 0)
+		c.H("bv64")
+		c.setH("bv64", fmt.Sprintf("(store %s %s #x0000000000000000)", c.H("bv64"), c.rangeLoc(x)))
+	}
+}
+
+// rangeLoc: the ghost location holding the byte position of a string range iterator.
+func (c *FnVC) rangeLoc(x *ssa.Range) string {
+	if c.rangeLocs == nil {
+		c.rangeLocs = map[*ssa.Range]string{}
+	}
+	if l, ok := c.rangeLocs[x]; ok {
+		return l
+	}
+	// base 0 is nil's base: no object lives below it
+	l := fmt.Sprintf("(mkLoc 0 (PF PNil %d))", 7000+len(c.rangeLocs))
+	c.rangeLocs[x] = l
+	return l
 }
 
 func (c *FnVC) next(x *ssa.Next) {
@@ -243,15 +262,23 @@ func (c *FnVC) next(x *ssa.Next) {
 	}
 	okn := c.freshConst("next_ok_"+sanitize(x.Name()), "Bool")
 	if x.IsString {
-		// k: byte index, v: rune. Only basic facts: 0 <= k < len, and an ASCII byte is its own rune.
+		// Go's range over a string, by UTF-8 decoding position: the iterator stands at byte
+		// position p; it stops when p == len; otherwise it yields (p, rune) and advances by the
+		// width w of the encoding at p: an ASCII byte is its own rune with w == 1; a byte >= 0x80
+		// starts a sequence of 1..4 bytes (1 for an invalid encoding, which yields RuneError)
+		// whose further bytes are continuation bytes (>= 0x80), and yields a rune >= 0x80.
 		s := c.v(rng.X)
-		k := c.freshConst("next_k_"+sanitize(x.Name()), "(_ BitVec 64)")
+		rl := c.rangeLoc(rng)
+		p := c.freshName("next_p_" + sanitize(x.Name()))
+		c.def(p, "(_ BitVec 64)", fmt.Sprintf("(select %s %s)", c.H("bv64"), rl))
+		k := p
 		v := c.freshConst("next_v_"+sanitize(x.Name()), "(_ BitVec 32)")
-		c.assume(fmt.Sprintf("(=> %s (and (bvsle #x0000000000000000 %s) (bvslt %s (str_len %s))))", okn, k, k, s))
-		c.assume(fmt.Sprintf("(=> (and %s (bvult (select (str_arr %s) %s) #x80)) (= %s ((_ zero_extend 24) (select (str_arr %s) %s))))", okn, s, k, v, s, k))
-		c.assume(fmt.Sprintf("(=> (and %s (bvuge (select (str_arr %s) %s) #x80)) (bvuge %s #x00000080))", okn, s, k, v))
+		w := c.freshConst("next_w_"+sanitize(x.Name()), "(_ BitVec 64)")
+		c.assume(fmt.Sprintf("(= %s (and (bvsle #x0000000000000000 %s) (bvslt %s (str_len %s))))", okn, p, p, s))
+		c.assume(fmt.Sprintf("(=> (and %s (bvult (select (str_arr %s) %s) #x80)) (and (= %s ((_ zero_extend 24) (select (str_arr %s) %s))) (= %s #x0000000000000001)))", okn, s, k, v, s, k, w))
+		c.assume(fmt.Sprintf("(=> (and %s (bvuge (select (str_arr %s) %s) #x80)) (and (bvuge %s #x00000080) (bvsle #x0000000000000001 %s) (bvsle %s #x0000000000000004) (bvsle (bvadd %s %s) (str_len %s)) (forall ((j (_ BitVec 64))) (=> (and (bvslt %s j) (bvslt j (bvadd %s %s))) (bvuge (select (str_arr %s) j) #x80)))))", okn, s, k, v, w, w, p, w, s, p, p, w, s))
+		c.setH("bv64", fmt.Sprintf("(store %s %s (ite %s (bvadd %s %s) %s))", c.H("bv64"), rl, okn, p, w, p))
 		c.tuples[x] = []string{okn, k, v}
-		c.havocs = append(c.havocs, "range over string: iteration order/positions abstracted "+c.srcAt(x.Pos()))
 		return
 	}
 	u, isMap := rng.X.Type().Underlying().(*types.Map)
